@@ -83,6 +83,13 @@ def violated(rep, ex: Explorer):
                     elif k[0] == "forall" and body == ("not", occurs):
                         # ∀x: x∉clause  is  ¬∃x: x∈clause
                         sat_pred = not v
+            if sat_pred is None:
+                about_model = [k for k, v in icase.guard if F.mentions(k, {MODEL})]
+                if about_model:
+                    raise AnalysisError(f"{where}: the test that decides whether a clause is unsatisfied is in a form the analysis does not read: " + "; ".join(show_pred(k)[:120] for k in about_model))
+                rep.violation("MCS.violated", where, "clause unsatisfied", "a clause counts as violated iff no literal of the model occurs in it",
+                              extracted="the clause is recorded without consulting the model", required="¬∃x∈model: x∈clause", function=site)
+                continue
             rep.check(sat_pred is False, "MCS.violated", where, "clause unsatisfied", "a clause counts as violated iff no literal of the model occurs in it",
                       extracted=f"∃x∈model: x∈clause = {sat_pred}", required="False", function=site)
     # early exits: reading off the owners may stop before all clauses were looked at only when the number of unsatisfied
